@@ -20,7 +20,7 @@
 EXTENDS SeqMachine, Json, IOUtils, SequencesExt, CSV
 
 CONSTANTS Ls,        \* set of host lengths
-          Family,    \* "edit" | "rot2" | "cuts"
+          Family,    \* "edit" | "rot2" | "cuts" | "cutsshared" | "cutsrepair" | "reptab" | "pure"
           OpKinds,   \* which kinds of "edit" programs (insert, embed, delete, ...)
           Chunk,     \* features per host table
           Stride,    \* take every Stride-th case (quick tier sampling) ...
@@ -95,8 +95,12 @@ GuestFeats(n) ==
      FeatRec(Bw(n), "g5", "misc"),
      FeatRec(Rg(0, n, FALSE, FALSE), "g6", "source") >>
 
+RefRec(rs) == [info |-> "(bases " \o JoinStr([j \in 1..Len(rs) |-> ToString(rs[j][1] + 1) \o " to " \o ToString(rs[j][2])], "; ") \o ")",
+               ranged |-> TRUE, ranges |-> rs]
+HostRefs(L) == << RefRec(<< <<0, L>> >>), RefRec(<< <<1, 2>>, <<L - 2, L>> >>), [info |-> "(sites)", ranged |-> FALSE, ranges |-> <<>>],
+                  RefRec(<< <<L \div 2, (L \div 2) + 1>> >>), [info |-> "", ranged |-> FALSE, ranges |-> <<>>] >>
 HostRec(L, c, topo) ==
-  [name |-> "r0", res |-> [j \in 1..L |-> 96 + j], topo |-> topo, kind |-> "gb", feats |-> HostFeats(L, c)]
+  [name |-> "r0", res |-> [j \in 1..L |-> 96 + j], topo |-> topo, kind |-> "gb", feats |-> HostFeats(L, c), refs |-> HostRefs(L)]
 GuestRec(n) ==
   [name |-> "g0", res |-> [j \in 1..n |-> 64 + j], topo |-> "na", kind |-> "basic", feats |-> GuestFeats(n)]
 
@@ -220,7 +224,7 @@ PureRecs(g) ==
       kd == Kinds[(g \div Len(Stores)) + 1]
   IN << [name |-> "r0", res |-> [j \in 1..6 |-> 96 + j], topo |-> "circular", kind |-> kd,
          store |-> st, buf |-> "B", off |-> 0, feats |-> PureFeats,
-         refs |-> <<"(bases 1 to 6)", "(bases 2 to 4; 5 to 6)", "(sites)">>],
+         refs |-> << RefRec(<< <<0, 6>> >>), RefRec(<< <<1, 4>>, <<4, 6>> >>), [info |-> "(sites)", ranged |-> FALSE, ranges |-> <<>>] >>],
         [name |-> "g0", res |-> [j \in 1..2 |-> 64 + j], topo |-> "na", kind |-> "basic",
          store |-> st, buf |-> "B", off |-> 6, feats |-> <<FeatRec(Rg(0, 2, FALSE, FALSE), "g1", "gene")>>] >>
 
@@ -232,7 +236,7 @@ Instances(L) ==
     [] Family = "pure" -> PureInstances
     [] Family = "reptab" -> {<<"reptab", 0, 0>>}
     [] Family = "cutsrepair" -> {<<"cutsrepair", m, 0>> : m \in 1..(Pow2(L - 1) - 1)} \ {x \in {<<"cutsrepair", m, 0>> : m \in 1..(Pow2(L - 1) - 1)} : Len(CutsOf(x[2], L)) > 3}
-    [] Family = "cuts" -> {<<"cuts", m, 0>> : m \in 0..(Pow2(L - 1) - 1)} \ {x \in {<<"cuts", m, 0>> : m \in 0..(Pow2(L - 1) - 1)} : Len(CutsOf(x[2], L)) > MaxCuts}
+    [] Family \in {"cuts", "cutsshared"} -> {<<"cuts", m, 0>> : m \in 0..(Pow2(L - 1) - 1)} \ {x \in {<<"cuts", m, 0>> : m \in 0..(Pow2(L - 1) - 1)} : Len(CutsOf(x[2], L)) > MaxCuts}
     [] OTHER -> {}
 
 \* all cases: <<L, chunk, instance>>
@@ -251,7 +255,8 @@ CaseRecs(cs) ==
 CaseJson(cs) ==
   IF cs[3][1] = "pure"
   THEN [id |-> CaseId(cs), recs |-> CaseRecs(cs), ops |-> PureProgram(cs[3][2]), pure |-> TRUE, noext |-> TRUE]
-  ELSE [id |-> CaseId(cs), recs |-> CaseRecs(cs), ops |-> Program(cs[1], cs[3])]
+  \* "cutsshared": the pieces are all cut from the SAME value (no defensive copy between the calls)
+  ELSE [id |-> CaseId(cs), recs |-> CaseRecs(cs), ops |-> Program(cs[1], cs[3]), shared |-> (Family = "cutsshared")]
 
 (***************************************************************************)
 (* Running a program on the calculus layer                                 *)
@@ -262,7 +267,9 @@ RawOf(r) ==
                 [key |-> r.feats[j].key, label |-> r.feats[j].label,
                  loc |-> IF r.feats[j].built THEN Built(r.feats[j].loc) ELSE r.feats[j].loc,
                  props |-> << <<"label", r.feats[j].label>> >>]],
-   refs |-> IF "refs" \in DOMAIN r /\ r.kind = "gb" THEN [j \in 1..Len(r.refs) |-> [num |-> j, info |-> r.refs[j]]] ELSE << >>,
+   refs |-> IF "refs" \in DOMAIN r /\ r.kind = "gb"
+            THEN [j \in 1..Len(r.refs) |-> [num |-> j, info |-> r.refs[j].info, ranged |-> r.refs[j].ranged, ranges |-> r.refs[j].ranges]]
+            ELSE << >>,
    region |-> << >>]
 
 RECURSIVE InitAll(_, _)
